@@ -232,6 +232,10 @@ func (packet *PacketHandler) parseColumns(columnFormats []uint16) error {
 		if err != nil {
 			return err
 		}
+		// the column length comes from the wire: it can't exceed what is left of the packet
+		if length := column.Length(); int32(length) != NullColumnValue && length > columnReader.Len() {
+			return ErrPacketTruncated
+		}
 		if err := column.readData(columnReader, format); err != nil {
 			return err
 		}
